@@ -9,7 +9,9 @@ import traceback
 import z3
 
 from . import core
-from .core import (Ctx, OutOfBound, PathAbort, SolverUnknown, Stats, Unmodelled, conj, neg, zbool)
+import signal
+
+from .core import (Ctx, OutOfBound, PathAbort, PathTimeout, SolverUnknown, Stats, Unmodelled, conj, neg, zbool)
 
 NWORKERS = int(os.environ.get('SX_WORKERS', '16'))
 
@@ -19,7 +21,7 @@ class Ob:
     and returns an outcome dict (see ok/viol/skip)"""
 
     def __init__(self, name, fn, params=None, must_reach=(), max_paths=2000000, max_wall=3600,
-                 desc='', bounds=None, stubs=()):
+                 desc='', bounds=None, stubs=(), allow_cut=False, path_timeout=60):
         self.name = name
         self.fn = fn
         self.params = params or {}
@@ -29,6 +31,8 @@ class Ob:
         self.desc = desc
         self.bounds = bounds or {}
         self.stubs = list(stubs)
+        self.path_timeout = path_timeout
+        self.allow_cut = allow_cut      # OutOfBound paths are a stated bound, not a failure
 
 
 # ------------------------------------------------------------------ outcomes
@@ -97,7 +101,9 @@ def run_path(ob, prefix, want_sample=False):
     ctx.want_sample = want_sample
     Ctx.cur = ctx
     try:
+        signal.setitimer(signal.ITIMER_REAL, ob.path_timeout)
         out = ob.fn(ctx, **ob.params)
+        signal.setitimer(signal.ITIMER_REAL, 0)
         if out is None:
             out = {'k': 'harness-error', 'why': 'harness returned None'}
     except PathAbort:
@@ -106,6 +112,8 @@ def run_path(ob, prefix, want_sample=False):
         out = {'k': 'unmodelled', 'why': str(e)[:200]}
     except OutOfBound as e:
         out = {'k': 'cut', 'why': str(e)[:200]}
+    except PathTimeout:
+        out = {'k': 'timeout', 'why': 'path did not finish within %ss' % ob.path_timeout}
     except SolverUnknown:
         out = {'k': 'unknown', 'why': 'branch decision'}
     except RecursionError:
@@ -113,6 +121,7 @@ def run_path(ob, prefix, want_sample=False):
     except Exception:
         out = {'k': 'harness-error', 'why': traceback.format_exc()[-1500:]}
     finally:
+        signal.setitimer(signal.ITIMER_REAL, 0)
         Ctx.cur = None
     if ctx.flags:
         out['flags'] = sorted(ctx.flags)
@@ -141,6 +150,8 @@ class Agg:
         self.cut = False
         self.wall = 0.0
         self.skips = {}
+        self.cuts = {}
+        self.stopped_early = 0
 
     def add(self, out, ndec):
         k = out['k']
@@ -153,7 +164,9 @@ class Agg:
         elif k in ('harness-error',):
             if len(self.errors) < 5:
                 self.errors.append(out.get('why', ''))
-        elif k == 'unmodelled' or k == 'cut' or k == 'unknown':
+        elif k == 'cut':
+            self.cuts[out.get('why', '')] = self.cuts.get(out.get('why', ''), 0) + 1
+        elif k == 'unmodelled' or k == 'unknown' or k == 'timeout':
             w = k + ':' + out.get('why', '')
             self.unmodelled[w] = self.unmodelled.get(w, 0) + 1
         elif k == 'skip':
@@ -169,7 +182,7 @@ class Agg:
         self.viols.extend(o.viols[:max(0, 400 - len(self.viols))])
         self.samples.extend(o.samples[:max(0, 6 - len(self.samples))])
         self.errors.extend(o.errors[:max(0, 5 - len(self.errors))])
-        for d, od in ((self.unmodelled, o.unmodelled), (self.flags, o.flags), (self.skips, o.skips)):
+        for d, od in ((self.unmodelled, o.unmodelled), (self.flags, o.flags), (self.skips, o.skips), (self.cuts, o.cuts)):
             for k, v in od.items():
                 d[k] = d.get(k, 0) + v
         self.paths += o.paths
@@ -194,6 +207,8 @@ def _explore_local(ob, stack, budget_s, budget_paths):
         n += 1
         if n >= budget_paths or time.time() - t0 > budget_s:
             break
+        if agg.counts.get('timeout', 0) >= 2 or agg.counts.get('viol', 0) >= 40:
+            break
     s1 = Stats.snapshot()
     agg.queries = s1['queries'] - s0['queries']
     agg.solver_s = s1['solver_s'] - s0['solver_s']
@@ -202,7 +217,12 @@ def _explore_local(ob, stack, budget_s, budget_paths):
     return agg, stack
 
 
+def _on_alarm(signum, frame):
+    raise PathTimeout()
+
+
 def _worker(obs, tq, rq):
+    signal.signal(signal.SIGALRM, _on_alarm)
     try:
         import resource
         resource.setrlimit(resource.RLIMIT_CORE, (0, 0))
@@ -230,6 +250,7 @@ def explore_all(obs, log=None, serial=False):
     {name: Agg}."""
     results = {ob.name: Agg(ob.name) for ob in obs}
     if serial or NWORKERS <= 1:
+        signal.signal(signal.SIGALRM, _on_alarm)
         for ob in obs:
             t0 = time.time()
             agg, left = _explore_local(ob, [[]], ob.max_wall, ob.max_paths)
@@ -285,6 +306,11 @@ def explore_all(obs, log=None, serial=False):
                         agg.merge(a)
                     break
                 if agg.counts.get('harness-error', 0) >= 3:
+                    work = []
+                if work and (agg.counts.get('viol', 0) >= 60 or agg.counts.get('timeout', 0) >= 6):
+                    # the verdict for this obligation is already decided (violations) or
+                    # cannot be reached (hangs): do not burn the budget on the rest
+                    agg.stopped_early = len(work)
                     work = []
             agg.wall = time.time() - t0
             if log:
